@@ -18,7 +18,8 @@ from ..errors import InvalidExchangeKeyError
 from ..rfc7517.models import CurveKey
 from ..rfc7517.pem import CryptographyBinding
 from ..rfc7517.types import KeyParameters
-from ..util import base64_to_int, int_to_base64
+from ..util import base64_to_int, urlsafe_b64encode
+from .util import encode_int
 from ..registry import KeyParameter
 
 __all__ = ['ECKey']
@@ -29,6 +30,12 @@ ECDictKey = t.TypedDict("ECDictKey", {
     "y": str,
     "d": str,  # optional
 }, total=False)
+
+
+def _coordinate_to_base64(num: int, key_size: int) -> str:
+    # https://www.rfc-editor.org/rfc/rfc7518#section-6.2.1.2
+    # the length of the octet string MUST be the full size of a coordinate
+    return urlsafe_b64encode(encode_int(num, key_size)).decode("ascii")
 
 
 class ECBinding(CryptographyBinding):
@@ -69,11 +76,12 @@ class ECBinding(CryptographyBinding):
     @classmethod
     def export_private_key(cls, key: EllipticCurvePrivateKey) -> ECDictKey:
         numbers = key.private_numbers()
+        size = key.curve.key_size
         return {
             "crv": cls._curves_dss[key.curve.name],
-            "x": int_to_base64(numbers.public_numbers.x),
-            "y": int_to_base64(numbers.public_numbers.y),
-            "d": int_to_base64(numbers.private_value),
+            "x": _coordinate_to_base64(numbers.public_numbers.x, size),
+            "y": _coordinate_to_base64(numbers.public_numbers.y, size),
+            "d": _coordinate_to_base64(numbers.private_value, size),
         }
 
     @classmethod
@@ -89,10 +97,11 @@ class ECBinding(CryptographyBinding):
     @classmethod
     def export_public_key(cls, key: EllipticCurvePublicKey) -> ECDictKey:
         numbers = key.public_numbers()
+        size = numbers.curve.key_size
         return {
             "crv": cls._curves_dss[numbers.curve.name],
-            "x": int_to_base64(numbers.x),
-            "y": int_to_base64(numbers.y),
+            "x": _coordinate_to_base64(numbers.x, size),
+            "y": _coordinate_to_base64(numbers.y, size),
         }
 
 
